@@ -23,6 +23,7 @@ import ClipperVerif.Driver.C12
 import ClipperVerif.Driver.AddPaths
 import ClipperVerif.Driver.C10Isect
 import ClipperVerif.Driver.AelOrder
+import ClipperVerif.Driver.AelRings
 namespace Clipper.Driver
 open Clipper.Proto
 
@@ -51,7 +52,8 @@ def handlers : List (String → Option (P String)) := [
   C12.handle,
   AddPaths.handle,
   C10Isect.handle,
-  AelOrder.handle
+  AelOrder.handle,
+  AelRings.handle
 ]
 
 def dispatch1 (cmd : String) : Option (P String) :=
